@@ -259,6 +259,7 @@ def run(facts, tier):
     res.functions_analysed = 6 + len(WHO_MAY_CALL)
     import registry
     registry.rule(facts, res, "R12-6")
+    registry.dangling_rule(facts, res, "R12-8")
     r12_7(facts, res)
     import staleidx
     staleidx.rule(facts, res, "R12-5", lambda f: f["crate"] in ("xml_info", "xml_dom"), floor=7)
